@@ -207,6 +207,11 @@ class Run:
                 rec.emit("step", op="add_listener", phase="end", providers=provs, exc=type(err).__name__, exc_msg=str(err)[:200])
         elif op == "probe":
             self._probe()
+        elif op == "bind_model":
+            if self.sm is not None:
+                with warnings.catch_warnings():
+                    warnings.simplefilter("ignore")
+                    self.sm.bind_events_to(self.sm.model)
         else:
             handler = getattr(self, "op_" + op, None)
             if handler is None:
@@ -311,6 +316,11 @@ class Run:
             return sm.send(event, *args, **kwargs)
         if style == "mixin":
             tgt = self.objs["model"]
+            if event in [str(e) for e in sm.events] and hasattr(tgt, event):
+                return getattr(tgt, event)(*args, **kwargs)
+            return sm.send(event, *args, **kwargs)
+        if style == "model_bound":
+            tgt = sm.model
             if event in [str(e) for e in sm.events] and hasattr(tgt, event):
                 return getattr(tgt, event)(*args, **kwargs)
             return sm.send(event, *args, **kwargs)
@@ -440,6 +450,9 @@ class Run:
             except Exception as err:  # noqa: BLE001
                 rec.emit("note", what="other-definition", action=act, exc=f"{type(err).__name__}: {err}"[:200])
             return
+        if act == "clone":
+            self._clone(step)
+            return
         if act == "construct":
             self.other_objs = render.provider_objects(self.spec, self.mod)
             if step.get("share"):
@@ -459,7 +472,18 @@ class Run:
             saved = self._swap_to_other()
             try:
                 if act == "send":
-                    yield from self._send({"op": "send", "event": step["event"], "style": "send"})
+                    yield from self._send({"op": "send", "event": step["event"], "style": step.get("style", "send"),
+                                           "args": step.get("args", []), "kwargs": step.get("kwargs", {})})
+                elif act == "activate":
+                    self._push_attr_guards()
+                    rec.emit("step", op="activate", phase="begin", val=dict(rec.val))
+                    try:
+                        res = self.sm.activate_initial_state()
+                        res = yield res
+                        rec.emit("step", op="activate", phase="end")
+                    except Exception as err:  # noqa: BLE001
+                        rec.emit("step", op="activate", phase="end", exc=type(err).__name__, exc_msg=str(err)[:200])
+                    self._probe()
                 elif act == "add_listener":
                     self.sm.add_listener(self.objs[step["provider"]])
             finally:
@@ -468,6 +492,64 @@ class Run:
         self._check_isolation(n0, act)
         return
         yield  # pragma: no cover
+
+    def _clone(self, step):
+        """deepcopy / pickle round trip of the main machine; the clone becomes the 'other' instance with
+        its own recorded history (checked against the reference from the copy point)."""
+        import copy
+        import pickle
+
+        rec, sm = self.rec, self.sm
+        how = step.get("how", "deepcopy")
+        sm.custom_attr = {"k": [1, 2], "n": len(rec.log)}
+        try:
+            state_before = sm.current_state.id
+        except Exception:  # noqa: BLE001
+            state_before = None
+        try:
+            clone = copy.deepcopy(sm) if how == "deepcopy" else pickle.loads(pickle.dumps(sm))
+        except Exception as err:  # noqa: BLE001
+            rec.emit("note", what="clone-failed", how=how, exc=f"{type(err).__name__}: {err}"[:200])
+            return
+        objs = {"model": clone.model}
+        for lst in list(getattr(clone, "_listeners", {})):
+            nm = type(lst).__name__.split("_")[0].lower()
+            if nm.startswith("l") and nm[1:].isdigit():
+                objs[nm] = lst
+        self.other, self.other_objs = clone, objs
+        self.other_log = []
+        problems = []
+        if clone.model is sm.model:
+            problems.append("clone.model is the original's model object")
+        for p, o in objs.items():
+            if p != "model" and o is self.objs.get(p):
+                problems.append(f"listener {p} is shared between original and clone")
+        for attr in ("allow_event_without_transition", "state_field", "start_value"):
+            if getattr(clone, attr, "<missing>") != getattr(sm, attr, "<missing>"):
+                problems.append(f"option {attr}: {getattr(clone, attr, '<missing>')!r} != {getattr(sm, attr, '<missing>')!r}")
+        if getattr(clone, "custom_attr", None) != sm.custom_attr or getattr(clone, "custom_attr", None) is sm.custom_attr:
+            problems.append("custom attribute not copied (or shared)")
+        try:
+            cstate = clone.current_state.id
+        except Exception:  # noqa: BLE001
+            cstate = None
+        if cstate != state_before:
+            problems.append(f"clone is in {cstate}, original in {state_before}")
+        if getattr(clone.model, clone.state_field, None) != getattr(sm.model, sm.state_field, None):
+            problems.append("model field differs after copy")
+        rec.emit("note", what="clone", how=how, state=state_before, problems=problems)
+        # the clone's own history starts here
+        saved = self._swap_to_other()
+        try:
+            ids = {p: id(o) for p, o in self.objs.items() if o is not None}
+            ids["sm"] = id(clone)
+            active = sorted(step.get("active") or [])
+            rec.emit("step", op="construct", phase="begin", val=dict(rec.val), stored=state_before, start=None,
+                     reuse=False, active=active, cloned=how)
+            rec.emit("step", op="construct", phase="end", ids=ids, engine=type(clone._engine).__name__ if hasattr(clone, "_engine") else None)
+            self._probe()
+        finally:
+            self._swap_back(saved)
 
     def _check_isolation(self, n0, act):
         rec = self.rec
